@@ -6,6 +6,7 @@ import (
 	"context"
 	"encoding/json"
 	"os"
+	"strings"
 	"testing"
 
 	metav1 "k8s.io/apimachinery/pkg/apis/meta/v1"
@@ -145,6 +146,7 @@ func FuzzC19Files(f *testing.F) {
 	f.Add([]byte(fuzzManifest), []byte(fuzzObject), []byte(fuzzTemplate))
 	f.Add([]byte(fuzzManifest), []byte(""), []byte("{{ fail \"x\" }}"))
 	f.Add([]byte("a: b"), []byte(fuzzObject), []byte(fuzzTemplate))
+	f.Add([]byte(strings.Replace(fuzzManifest, "config.flag == true", "config.label", 1)), []byte(strings.Replace(fuzzObject, "cond.c0", "config.label", 1)), []byte("{{ cel \"config.label\" }}"))
 	f.Add([]byte(fuzzManifest), []byte("metadata:\n  annotations:\n    package-operator.run/condition-map: \"\"\n"), []byte("{{ cel \"1 +\" }}"))
 	f.Fuzz(func(t *testing.T, manifest, obj, tmpl []byte) {
 		c := &c19FilesCase{Part: "pipeline", Files: map[string]string{"manifest.yaml": string(manifest), "x.yaml": string(obj), "a/t.yaml.gotmpl": string(tmpl)},
